@@ -200,7 +200,9 @@ def opDateDec (cal : Bool) (args : List SExp) : Option OpResult := do
     pure ⟨impl, fun got => match r with
       | some v => if inRange v then mustEqual "C16" (if cal then "caldate-decode" else "httpdate-decode") s!"ok {v}" got else []
       | none =>
-        if !cal then [] else
+        -- (the shortest text of the three HTTP-date forms, an asctime date with a one-digit day, has 23 characters:
+        -- anything shorter, the empty text first of all, is outside the grammar and must be refused)
+        if !cal then (if s.length < 23 && got ≠ "err" then [("C16", "httpdate-accepts-text-outside-the-grammar")] else []) else
         let frac := match stripFrac s.toList with | some t => (Time.parseCal t).isSome | none => false
         if frac || got = "err" then [] else [("C16", "caldate-accepts-text-outside-the-grammar")]⟩
   | _ => none
